@@ -6,6 +6,7 @@ import Driver.Emu
 import Driver.Color
 import Driver.Terminfo
 import Driver.Lookup
+import Driver.Wasm
 /-
 Line-protocol driver: one case per line, first token selects the engine, one reply line per case.
 Stateless across lines (a line is a complete case = a replay).  Core-only imports so that it links.
@@ -25,6 +26,7 @@ def dispatch (env : Env) (eng rest : String) : String :=
   | "color" => Color.run rest
   | "tparm" | "tparmref" | "tputs" | "tputsref" | "tgoto" | "tgotoref" | "tcolor" | "tcolorref" => Terminfo.run env eng rest
   | "lookup" => Lookup.run env rest
+  | "wasm" => Wasm.run env.rw rest
   | _ => "bad-engine"
 
 def handle (env : Env) (line : String) : String :=
